@@ -132,6 +132,19 @@ theorem builtinPemsM_run (W : World) (l : List String) :
     rw [runM_builtinPemM_bind, runM_bind, ih]
     rfl
 
+theorem pemCanonsM_run (W : World) (l : List Bytes) :
+    runM W (pemCanonsM l) = .ok (l.filterMap W.pemCanon) := by
+  induction l with
+  | nil => rfl
+  | cons p ps ih =>
+    unfold pemCanonsM
+    rw [runM_pemCanonM_bind, runM_bind, ih]
+    cases h : W.pemCanon p <;> simp [List.filterMap_cons, h] <;> rfl
+
+theorem pemCanonsM_bind_ok {α} {W : World} {l : List Bytes} {f : List Bytes → M α} {r : α} :
+    runM W (pemCanonsM l >>= f) = .ok r ↔ runM W (f (l.filterMap W.pemCanon)) = .ok r := by
+  rw [runM_bind, pemCanonsM_run]; rfl
+
 theorem builtinPemsM_bind_ok {α} {W : World} {l : List String} {f : List Bytes → M α} {r : α} :
     runM W (builtinPemsM l >>= f) = .ok r ↔ runM W (f (l.map W.builtinPem)) = .ok r := by
   rw [runM_bind, builtinPemsM_run]; rfl
